@@ -1,9 +1,13 @@
 #!/bin/bash
-# usage: tools/mutant.sh <patch> <cmd...>   — apply patch to /repo, run cmd, always revert
+# usage: tools/mutant.sh <patch> <cmd...>   — apply patch to /repo, run cmd, ALWAYS revert (also on signals)
 set -u
 patch="$(realpath "$1")"; shift
+revert() { git -C /repo checkout -- . ; }
+trap 'revert; echo "mutant reverted (signal)"; exit 143' TERM INT HUP
 git -C /repo apply "$patch" || { echo "patch does not apply"; exit 3; }
-"$@"; rc=$?
-git -C /repo checkout -- . 
+"$@" &
+pid=$!
+wait $pid; rc=$?
+revert
 echo "mutant exit=$rc"
 exit $rc
